@@ -379,6 +379,10 @@ def abandon_program(rng, ncases, lanes=ALL_LANES, big=False):
     for c in range(ncases):
         n = rng.choice([MIB + 5, 2 * MIB] if big else [0, 1, 10, 5000, 70000])
         d = _mk_data(prog, rng, n)
+        if not big and rng.random() < 0.3:
+            # the abandoned / rejected writer carries bytes that committed keys already hold: its
+            # disappearance must not take their (shared, content-addressed) file with it
+            d, n = d_ok, 33
         lane = rng.choice(lanes)
         keyed = rng.random() < 0.8
         key = add_key(prog, rand_key(rng, c)) if keyed else None
@@ -457,7 +461,13 @@ def retrieval_steps(rng, prog, lanes, key, algo, d, xcount, which=None, dest_exi
             # (a one-byte buffer on a megabyte file means a million calls through the runtime:
             # slow enough to trip the watchdog under load, which would be a false alarm)
             bs = rng.choice(BUFSIZES[2:] if big else BUFSIZES)
-            if rng.random() < 0.7:
+            how = rng.random()
+            if how < 0.3:
+                # the provided read_to_end(), into a fresh vector or into an assembly buffer that
+                # already holds bytes (the entry's original bytes, or unrelated ones)
+                st.append({"op": "r_read", "lane": lane, "h": r, "n": 0, "to_end": True, "orig": d,
+                           "prefill": rng.choice([None, "same", "same", "00" * 16, "abcdef"])})
+            elif how < 0.75:
                 st.append({"op": "r_read", "lane": lane, "h": r, "n": bs, "all": True})
             else:
                 for _ in range(rng.randrange(0, 3)):
@@ -856,3 +866,42 @@ def refwrite_program(rng, nrec, lanes=ALL_LANES):
             observe_all(prog, rng, lanes, keys, sorted(addrs), read=True)
     observe_all(prog, rng, lanes, keys, sorted(addrs), read=True)
     return prog
+
+
+def removal_combo_programs(rng, lanes=ALL_LANES, lanes_per_combo=2):
+    """C09, systematic: every ordered pair of removal kinds applied to ONE key whose content is
+    shared with another key, each step followed by observations of every key and address, then
+    a re-write.  (Pairs such as 'remove, then remove_fully' reach code paths - a lookup that
+    ends in a tombstone - which single removals and random histories seldom do.)"""
+    kinds = ["remove", "remove_hash", "remove_fully", "clear"]
+    progs = []
+    for r1 in kinds:
+        for r2 in kinds:
+            for lane2 in rng.sample(list(lanes), lanes_per_combo):
+                prog = {"keys": {}, "blobs": {}, "steps": []}
+                a = add_key(prog, rand_key(rng, 0))
+                b = add_key(prog, rand_key(rng, 1))
+                c = add_key(prog, rand_key(rng, 2))
+                d = _mk_data(prog, rng, rng.choice([1, 30, 900]))
+                e = _mk_data(prog, rng, 11)
+                keys = [a, b, c]
+                addrs = [("sha256", d), ("sha256", e)]
+                for k, x in ((a, d), (b, d), (c, e)):
+                    prog["steps"].append({"op": "write", "lane": rng.choice(lanes), "key": k, "data": x, "algo": "sha256"})
+
+                def rm(kind, lane):
+                    if kind == "remove":
+                        return {"op": "remove", "lane": lane, "key": a, "variant": rng.choice(["plain", "opts", "index_delete"])}
+                    if kind == "remove_hash":
+                        return {"op": "remove_hash", "lane": lane, "sri": [{"a": "sha256", "d": d}]}
+                    if kind == "remove_fully":
+                        return {"op": "remove_fully", "lane": lane, "key": a}
+                    return {"op": "clear", "lane": lane}
+                prog["steps"].append(rm(r1, rng.choice(lanes)))
+                observe_all(prog, rng, lanes, keys, addrs, read=True)
+                prog["steps"].append(rm(r2, lane2))
+                observe_all(prog, rng, lanes, keys, addrs, read=True)
+                prog["steps"].append({"op": "write", "lane": rng.choice(lanes), "key": a, "data": e, "algo": "sha256"})
+                observe_all(prog, rng, lanes, keys, addrs, read=True)
+                progs.append(prog)
+    return progs
